@@ -1,6 +1,6 @@
 //! unit: assembler -- stream reassembly (`Assembler`): every chunk handed to the application is the sender's bytes at that offset, ordered reads are gap-free
 //! props: C01
-//! trusted: std BinaryHeap / PeekMut contract (sequence view; PeekMut as a prophecy of the heap after the borrow; into_sorted_vec = sorted permutation); bytes::{Bytes,BytesMut} contract; btree RangeSet contract incl. `replace` (set view, counting); `for x in &heap` iterates the enumeration (one header rewrite in ensure_ordering); hand-written Default for Assembler standing for #[derive(Default)]; machine arithmetic: allocation estimates fit usize (insert precondition)
+//! trusted: std BinaryHeap / PeekMut contract (sequence view; PeekMut as a prophecy of the heap after the borrow; into_sorted_vec = sorted permutation); bytes::{Bytes,BytesMut} contract; btree RangeSet contract incl. `replace` (set view, counting; unit btree_range_set proves on the real code that replace + draining + drop is exactly set union, keeps the representation invariant and yields only non-empty pieces that were stored before; the counting clause and the ordering of the pieces stay assumed); `for x in &heap` iterates the enumeration (one header rewrite in ensure_ordering); hand-written Default for Assembler standing for #[derive(Default)]; machine arithmetic: allocation estimates fit usize (insert precondition)
 #![feature(allocator_api)]
 #![allow(unused_imports, dead_code, non_camel_case_types, non_snake_case, unused_variables, unused_mut, unused_assignments)]
 use vstd::prelude::*;
